@@ -19,7 +19,7 @@ from props import store_common as sc
 def run(ctx):
     ctx.static_and_proofs("store")
     quick = ctx.tier == "quick"
-    args = ["-oplists", "60" if quick else "900", "-singles", "72" if quick else "900", "-paged", "9" if quick else "120"]
+    args = ["-oplists", "60" if quick else "900", "-singles", "72" if quick else "900", "-paged", "9" if quick else "120", "-regchange", "8" if quick else "120"]
     if os.environ.get("C13_BACKENDS"):
         args += ["-backends", os.environ["C13_BACKENDS"]]
     cases = ctx.harness("c13", args)
